@@ -16,14 +16,18 @@ from . import c04, geom
 from .tlaval import parse_state
 from .tlc import run_tlc, scratch
 
-CONFIGS = [("point", "CatPoint", "polygon", "CatPolygon"), ("line", "CatLine", "polygon", "CatPolygon"), ("polygon", "CatPolygon", "line", "CatLine"),
-           ("multipolygon", "CatMultiPolygon", "polygon", "CatPolygon")]
+# (kind of column "ga", its catalogue, kind of column "gb", its catalogue, kind / catalogue of the right frame of sjoin)
+CONFIGS = [("point", "CatPoint", "line", "CatLine", "polygon", "CatPolygon"), ("line", "CatLine", "point", "CatPoint", "polygon", "CatPolygon"),
+           ("polygon", "CatPolygon", "multipoint", "CatMultiPoint", "line", "CatLine"),
+           ("multipolygon", "CatMultiPolygon", "point", "CatPoint", "polygon", "CatPolygon"),
+           ("multiline", "CatMultiLine", "ring", "CatRing", "polygon", "CatPolygon")]
 
 
-def simulate(kind, cat, rkind, rcat, num, depth, seed, n=4):
+def simulate(kind, cat, kind2, cat2, rkind, rcat, num, depth, seed, n=4, bias="none"):
     wd = scratch("world")
     os.makedirs(os.path.join(wd, "tr"))
-    r = run_tlc("MC_World", cfg=dict(spec="Spec", constants=dict(Kind=kind, Elems="<- " + cat, RKind=rkind, RElems="<- " + rcat, N=n, MaxOps=depth), invariants=["RowsSane"]),
+    r = run_tlc("MC_World", cfg=dict(spec="Spec", constants=dict(Kind1=kind, Elems1="<- " + cat, Kind2=kind2, Elems2="<- " + cat2, RKind=rkind, RElems="<- " + rcat,
+                                                                 N=n, MaxOps=depth, Bias=bias), invariants=["RowsSane"]),
                 workers=1, simulate=f"file={wd}/tr/b,num={num}", depth=depth + 2, seed=seed, timeout=3000)
     behaviours = []
     for f in sorted(glob.glob(os.path.join(wd, "tr", "*"))):
@@ -41,23 +45,27 @@ def fl(v):
     return math.nan if v == geom.NAN else float(v)
 
 
-def replay(chk, kind, cat, rkind, rcat_elems, rows0, hist, tmp, tag):
-    """returns number of observations compared; reports violations through chk"""
+def replay(chk, kinds, catelems, rkind, rcat_elems, rows0, hist, tmp, tag):
+    """returns number of observations compared; reports violations through chk.  kinds / catelems: of the columns ga, gb"""
     import dask
     import dask.dataframe as dd
     import spatialpandas as sp
     from spatialpandas.io import read_parquet, read_parquet_dask, to_parquet
     ids = [r[0] for r in rows0]
-    els = [cat[r[1] - 1] for r in rows0]
-    obj = sp.GeoDataFrame({"id": np.array(ids, dtype="int64"), "geometry": geom.make_array(kind, els)})
+    els1 = [catelems[0][r[1] - 1] for r in rows0]
+    els2 = [catelems[1][r[2] - 1] for r in rows0]
+    obj = sp.GeoDataFrame({"id": np.array(ids, dtype="int64"), "ga": geom.make_array(kinds[0], els1), "gb": geom.make_array(kinds[1], els2)})
     right = sp.GeoDataFrame({"rid": np.arange(1, len(rcat_elems) + 1), "geometry": geom.make_array(rkind, rcat_elems)})
+    active = 1
+    kind = kinds[0]
+    desc = [f"GeoDataFrame ga[{kinds[0]}] {[(i, geom.to_py(kinds[0], e)) for i, e in zip(ids, els1)]} gb[{kinds[1]}] {[geom.to_py(kinds[1], e) for e in els2]}"]
     form = "pandas"
     last_path = None
-    desc = [f"GeoDataFrame[{kind}] rows {[(i, geom.to_py(kind, e)) for i, e in zip(ids, els)]}"]
     nobs = 0
     for step, h in enumerate(hist):
         op, a, b, val = h["op"], h["a"], h["b"], h["val"]
         desc.append(f"{op}({a!r}{', ' + repr(b) if b else ''})")
+        prev = obj
         try:
             if op == "iloc":
                 obj = obj.iloc[a:b]
@@ -65,6 +73,9 @@ def replay(chk, kind, cat, rkind, rcat_elems, rows0, hist, tmp, tag):
                 obj = obj[obj["id"].isin(sorted(a))]
             elif op == "reverse":
                 obj = obj.iloc[::-1]
+            elif op == "set_geometry":
+                obj = obj.set_geometry("ga" if a == 1 else "gb")
+                active, kind = a, kinds[a - 1]
             elif op == "sort_desc":
                 obj = obj.sort_values("id", ascending=False)
             elif op == "concat_rotate":
@@ -111,7 +122,7 @@ def replay(chk, kind, cat, rkind, rcat_elems, rows0, hist, tmp, tag):
                         return nobs
             elif op == "read_bounds":
                 box = tuple(float(v) for v in a)
-                sub = read_parquet_dask(last_path, bounds=box)
+                sub = read_parquet_dask(last_path, geometry="ga" if active == 1 else "gb", bounds=box)
                 got = set(int(i) for i in sub.compute()["id"]) if sub.npartitions else set()
                 allids = set(int(i) for i in obj["id"].compute())
                 nobs += 1
@@ -146,6 +157,7 @@ def replay(chk, kind, cat, rkind, rcat_elems, rows0, hist, tmp, tag):
                     obj = read_parquet_dask(path)
                     form = "dataset"
                     last_path = path
+                active, kind = 1, kinds[0]          # a re-read frame starts with the first geometry column active
             elif op == "pack_partitions_to_parquet":
                 path = os.path.join(tmp, f"{tag}_{step}.parq")
                 try:
@@ -155,6 +167,7 @@ def replay(chk, kind, cat, rkind, rcat_elems, rows0, hist, tmp, tag):
                     return nobs
                 form = "dataset"
                 last_path = path
+                active, kind = 1, kinds[0]
             elif op == "ids":
                 got = set(int(i) for i in (obj["id"].compute() if form != "pandas" else obj["id"]))
                 nobs += 1
@@ -201,8 +214,15 @@ def replay(chk, kind, cat, rkind, rcat_elems, rows0, hist, tmp, tag):
                 if got != want:
                     bad(chk, desc, f"sjoin pairs {got}, the model says {want}", op, kind)
                     return nobs
+            if obj is not prev and form != "pandas":
+                obj.compute()           # lazy graphs: make an error surface at the step that built the failing graph
         except Exception as ex:  # noqa: BLE001
             import traceback
+            if isinstance(ex, IndexError) and "out-of-bounds" in str(ex) and hasattr(prev, "npartitions") and dask_partitions_bug(prev):
+                # the pinned Dask mis-optimises `.partitions[...]` (which cx / cx_partitions must use) over a frame filtered twice:
+                # prev.compute() works, prev.partitions[all].compute() raises - plain Dask frames do the same (DESIGN 9)
+                chk.notes["world_dask_partitions_bug"] = chk.notes.get("world_dask_partitions_bug", 0) + 1
+                return nobs
             if isinstance(ex, AssertionError) and "dask_expr/_repartition.py" in traceback.format_exc() and any(x["op"] == "pack_partitions" for x in hist[:step]):
                 # Dask's optimizer pushed a later row filter below pack_partitions' set_index; the filtered rows share one Hilbert
                 # distance and Dask cannot split them into the requested partitions (the case C09 excludes, surfacing lazily)
@@ -211,6 +231,21 @@ def replay(chk, kind, cat, rkind, rcat_elems, rows0, hist, tmp, tag):
             bad(chk, desc, f"raises {type(ex).__name__}: {ex}\n" + traceback.format_exc()[-600:], op + "-raises", kind)
             return nobs
     return nobs
+
+
+def dask_partitions_bug(frame):
+    """witness that an IndexError comes from Dask itself: the frame computes, but selecting ALL of its partitions does not"""
+    try:
+        frame.compute()
+    except Exception:  # noqa: BLE001
+        return False
+    try:
+        frame.partitions[list(range(frame.npartitions))].compute()
+    except IndexError:
+        return True
+    except Exception:  # noqa: BLE001
+        return False
+    return False
 
 
 def bad(chk, desc, why, op, kind):
@@ -228,14 +263,17 @@ def stage(chk, quick, seed):
     optally = {}
     try:
         with dask.config.set(scheduler="synchronous"):
-            for ci, (kind, cat, rkind, rcat) in enumerate(CONFIGS[:2] if quick else CONFIGS):
-                r, behaviours = simulate(kind, cat, rkind, rcat, num=12 if quick else 300, depth=8 if quick else 12, seed=seed * 31 + ci + 1)
+            for ci, (kind, cat, kind2, cat2, rkind, rcat) in enumerate(CONFIGS[:2] if quick else CONFIGS):
+                r, behaviours = simulate(kind, cat, kind2, cat2, rkind, rcat, num=8 if quick else 200, depth=8 if quick else 12, seed=seed * 31 + ci + 1)
                 chk.add_tlc(r)
+                r2, more = simulate(kind, cat, kind2, cat2, rkind, rcat, num=6 if quick else 200, depth=8 if quick else 12, seed=seed * 37 + ci + 5, bias="dask")
+                chk.add_tlc(r2)
+                behaviours += more
                 for bi, (rows0, hist, last) in enumerate(behaviours):
                     total += 1
                     for h in hist:
                         optally[h["op"]] = optally.get(h["op"], 0) + 1
-                    nobs += replay(chk, kind, cats[cat], rkind, cats[rcat], rows0, hist, tmp, f"w{ci}_{bi}")
+                    nobs += replay(chk, (kind, kind2), (cats[cat], cats[cat2]), rkind, cats[rcat], rows0, hist, tmp, f"w{ci}_{bi}")
                     if bi == 3 and ci == 0:
                         chk.sample({"world_history": [dict(op=h["op"], a=repr(h["a"]), val=repr(h["val"])) for h in hist]})
     finally:
